@@ -83,6 +83,10 @@ def probe_inst(unw2, unw3, tds=(2, 3)):
                 for k in range(0, 2 * n + 1):
                     d = dict(TD=td, SHAPE=m, COLORS=c, KEYS_CANON=1, PROBE=k, unwind=unw)
                     # quick tier: all trees of height <= 2 and every third tree of height 3; thorough: all
+                    if td == 3 and k % 2 == 0:
+                        # insertion of a new key into a tree of height 3: 4-6 GB and minutes per query
+                        d['tier'] = 'thorough'
+                        d['weight'] = 4
                     if td == 3 and ntree[0] % 3 != 0:
                         d['tier'] = 'thorough'
                     out.append(d)
@@ -114,3 +118,21 @@ GROUPS = [
     tg('checker', 'h_checker', ['qtreetbl_check', 'node_check_root', 'node_check_red', 'node_check_black', 'node_check_llrb'], ['C02'],
        [dict(TD=2, unwind=5), dict(TD=3, unwind=9)]),
 ]
+
+
+def c13(groups):
+    """C13 overlay on put / remove / get+min+max+clear: trees of height <= 2"""
+    out = []
+    for g in groups:
+        if g['name'] not in ('tree_put', 'tree_remove', 'tree_get'):
+            continue
+        h = dict(g)
+        h['name'] = g['name'].replace('tree_', 'tree_c13_')
+        h['props'] = ['C13']
+        h['defines'] = list(g.get('defines', [])) + ['-DQV_C13']
+        h['instances'] = [dict(i) for i in g['instances'] if i.get('TD') == 2]
+        out.append(h)
+    return out
+
+
+GROUPS = GROUPS + c13(GROUPS)
